@@ -383,8 +383,8 @@ class LiteralMethod(DeserializationMethod):
                         coerced = self.coercer(cls, data)
                         # coercer could return an instance of a subclass, e.g. bool/int
                         return self.value_map[coerced.__class__, coerced]
-                    except KeyError:
-                        pass
+                    except (KeyError, ValidationError):
+                        pass  # not coercible to this class, maybe to the next one
             raise ValidationError(format_error(self.error, data))
         except TypeError:
             raise bad_type(data, *self.types)
